@@ -47,6 +47,11 @@ Proof. unfold enc_stream. cbn [flat_map]. apply bytes_of_words_app. Qed.
 Lemma enc_stream_app a b : enc_stream (a ++ b) = enc_stream a ++ enc_stream b.
 Proof. unfold enc_stream. rewrite flat_map_app. apply bytes_of_words_app. Qed.
 
+Lemma enc_stream_concat is : enc_stream is = concat (map (fun i => bytes_of_words (asm_inst i)) is).
+Proof.
+  induction is as [|i r IH]; [reflexivity|]. rewrite enc_stream_cons, IH. reflexivity.
+Qed.
+
 Lemma asm_inst_length_pos i : (1 <= length (asm_inst i))%nat.
 Proof. unfold asm_inst. cbv zeta. cbn [length]. lia. Qed.
 
@@ -119,6 +124,9 @@ Qed.
 
 (** chunk k is as long as the re-encoding of instruction k *)
 Definition same_length (c : list N) (i : inst) : Prop := length c = length (bytes_of_words (asm_inst i)).
+
+Lemma same_length_words c i : same_length c i <-> length c = (4 * length (asm_inst i))%nat.
+Proof. unfold same_length. rewrite bytes_of_words_length. tauto. Qed.
 
 Lemma cchain_facts G t idx d is cs d' : cchain G t idx d is cs d' ->
   rest d = concat cs ++ rest d' /\ Forall2 same_length cs is /\
@@ -374,8 +382,394 @@ Qed.
 Example loaded_header_reparse_needs_bytes :
   let bs := [3;2;35;7; 0;0;1;0; 0;0;0;0; 0;0;0;256; 0;0;0;0] in
   exists h d1, parse_header (mkdec bs) = Ok (h, d1) /\ h_bound h = 4294967296 /\
-    exists h', parse_header (mkdec (bytes_of_words (asm_header h))) = Ok (h', mkdec [] ) /\ False = False /\ h_bound h' = 0.
+    exists h', parse_header (mkdec (bytes_of_words (asm_header h)))
+               = Ok (h', {| rest := []; off := 20; lim := None |}) /\ h_bound h' = 0 /\ h' <> h.
 Proof.
-  eexists _, _. split; [vm_compute; reflexivity|]. split; [vm_compute; reflexivity|].
-  eexists. split; [vm_compute|split; [reflexivity|]].
-Abort.
+  eexists _, _. split; [vm_compute; reflexivity|]. split; [reflexivity|].
+  eexists. split; [vm_compute; reflexivity|]. split; [reflexivity|discriminate].
+Qed.
+
+(** ====================================================================== *)
+(** * S4: the real data of this run                                          *)
+(** ====================================================================== *)
+
+(** ---- bridges between the vocabularies of LoaderFacts / C05_inst and LayoutFacts ---- *)
+Definition cls (i : inst) : token := class_of (i_opcode i).
+
+Lemma tag_tagged is : LayoutFacts.tag cls is = tagged is.
+Proof. reflexivity. Qed.
+
+Lemma map_snd_tagged is : map snd (tagged is) = is.
+Proof. rewrite <- tag_tagged. apply map_snd_tag. Qed.
+
+Lemma toks_cls is : toks is = map cls is.
+Proof. reflexivity. Qed.
+
+(** the instructions of class [T], in stream order *)
+Definition insts_with (T : token) (is : list inst) : list inst :=
+  filter (fun i => token_eqb (cls i) T) is.
+
+Lemma insts_of_tagged T is : LayoutFacts.insts_of T (tagged is) = insts_with T is.
+Proof.
+  unfold LayoutFacts.insts_of, insts_with, tagged.
+  induction is as [|i r IH]; [reflexivity|].
+  cbn [map filter fst LoaderFacts.tag]. fold (cls i).
+  destruct (token_eqb (cls i) T); cbn [map snd]; rewrite IH; reflexivity.
+Qed.
+
+(** ---- the loaded module and header ---- *)
+Definition loaded_module (bytes : list N) : module inst := l_module (lw_state (fst (load_case bytes))).
+Definition loaded_header (bytes : list N) : option header := l_header (lw_state (fst (load_case bytes))).
+
+Lemma scan_bytes_inv G0 bytes h is r : scan_bytes G0 bytes = (Some h, is, r) ->
+  exists d1, parse_header (mkdec bytes) = Ok (h, d1) /\ scan G0 (S (length bytes)) [] 0 d1 = (is, r).
+Proof.
+  unfold scan_bytes. destruct (parse_header (mkdec bytes)) as [[h' d1]|e|p]; try discriminate.
+  destruct (scan G0 (S (length bytes)) [] 0 d1) as [is' r'] eqn:SC. intros H. inversion H; subst.
+  exists d1. split; [reflexivity|exact SC].
+Qed.
+
+(** everything the accepted load gives, in one place *)
+Lemma accepted_view bytes h is :
+  snd (load_case bytes) = Ok tt -> scan_bytes G bytes = (Some h, is, Ok tt) ->
+  exists s, wellop is /\ WB (toks is) /\ real_load is = LCont s /\ spec_load (tagged is) = LCont s /\
+            load_case bytes = ({| lw_state := with_header h s; lw_panic := false |}, Ok tt) /\
+            loaded_module bytes = l_module s /\ loaded_header bytes = Some h.
+Proof.
+  intros ACC SB. destruct (accepted_state_iff bytes ACC) as (h0 & is0 & s & SB0 & W & L & _).
+  rewrite SB in SB0. inversion SB0; subst h0 is0. clear SB0.
+  pose proof (scan_wellop _ _ _ _ SB) as WO.
+  pose proof (accepted_state _ _ _ _ SB L) as ST.
+  exists s. split; [exact WO|]. split; [exact W|]. split; [exact L|].
+  split; [rewrite <- (real_load_is_spec is WO); exact L|]. split; [exact ST|].
+  unfold loaded_module, loaded_header. rewrite ST. split; reflexivity.
+Qed.
+
+Lemma Forall_mkdec_split bytes pre d1 : Forall byte bytes -> bytes = pre ++ rest d1 -> Forall byte (rest d1).
+Proof. intros H E. rewrite E in H. eapply Forall_app_r. exact H. Qed.
+
+(** (a) the loaded header is the parsed one; it carries the input's version
+    word (normalised: major and minor bytes only) and the input's bound, the
+    fixed generator word and reserved word 0 *)
+Theorem e2e_header bytes h is :
+  Forall byte bytes -> snd (load_case bytes) = Ok tt -> scan_bytes G bytes = (Some h, is, Ok tt) ->
+  loaded_header bytes = Some h /\
+  exists w1 w2 w3 w4 body,
+    bytes = bytes_of_words [MAGIC; w1; w2; w3; w4] ++ body /\
+    w1 < w32 /\ w2 < w32 /\ w3 < w32 /\ w4 < w32 /\
+    h = {| h_magic := MAGIC; h_version := norm_version w1; h_generator := GENERATOR;
+           h_bound := w3; h_reserved := 0 |} /\
+    norm_header h = h.
+Proof.
+  intros HB ACC SB. destruct (accepted_view _ _ _ ACC SB) as (s & _ & _ & _ & _ & _ & _ & LH).
+  split; [exact LH|].
+  destruct (scan_bytes_inv _ _ _ _ _ SB) as (d1 & PH & _).
+  destruct (parse_header_loaded _ _ _ PH HB) as (w1 & w2 & w3 & w4 & R & K1 & K2 & K3 & K4 & E & _).
+  exists w1, w2, w3, w4, (rest d1). cbn [mkdec rest] in R.
+  split; [exact R|]. do 4 (split; [assumption|]). split; [exact E|].
+  apply (loaded_header_reparse _ _ _ [] PH HB).
+Qed.
+
+(** (b) what assembling the loaded module emits *)
+Theorem e2e_assemble h (m : module inst) :
+  assemble_module (Some h) m = asm_header h ++ flat_map asm_inst (all_insts m) /\
+  bytes_of_words (assemble_module (Some h) m) = bytes_of_words (asm_header h) ++ enc_stream (all_insts m).
+Proof.
+  rewrite assemble_module_is_all_insts. split; [reflexivity|]. apply bytes_of_words_app.
+Qed.
+
+(** (c) nothing dropped, duplicated or invented *)
+Theorem e2e_nothing_lost bytes h is :
+  snd (load_case bytes) = Ok tt -> scan_bytes G bytes = (Some h, is, Ok tt) ->
+  let m := loaded_module bytes in
+  (at_most_one_mm (toks is) -> Permutation (all_insts m) is) /\
+  (forall x, In x (all_insts m) -> In x is).
+Proof.
+  intros ACC SB m. destruct (accepted_view _ _ _ ACC SB) as (s & _ & _ & _ & SL & _ & LM & _).
+  unfold m. rewrite LM. split.
+  - intros H1. rewrite <- (map_snd_tagged is).
+    apply nothing_dropped_or_invented; [exact SL|]. rewrite toks_tagged. exact H1.
+  - intros x Hx. rewrite <- (map_snd_tagged is). apply (loaded_subset _ _ SL). exact Hx.
+Qed.
+
+(** (c) relative order is preserved inside every section, function and block;
+    function definitions, labels and function ends are exactly the
+    instructions of these classes, in stream order *)
+Theorem e2e_order bytes h is :
+  snd (load_case bytes) = Ok tt -> scan_bytes G bytes = (Some h, is, Ok tt) ->
+  let m := loaded_module bytes in
+  (forall k, k <= 10 -> subseq (sec_insts m k) is)
+  /\ (forall f, In f (m_functions m) -> subseq (olist (f_def f) ++ f_params f) is)
+  /\ (forall f b, In f (m_functions m) -> In b (f_blocks f) -> subseq (block_insts b) is)
+  /\ fn_defs (m_functions m) = insts_with TFunction is
+  /\ fn_labels (m_functions m) = insts_with TLabel is
+  /\ fn_ends (m_functions m) = insts_with TFunctionEnd is
+  /\ (forall f, In f (m_functions m) -> subseq (fn_skeleton f) is)
+  /\ (forall f, In f (m_functions m) -> subseq (olist (f_def f) ++ f_params f ++ olist (f_end f)) is).
+Proof.
+  intros ACC SB m. destruct (accepted_view _ _ _ ACC SB) as (s & _ & _ & _ & SL & _ & LM & _).
+  unfold m. rewrite LM.
+  pose proof (relative_order_preserved _ _ SL) as RO. cbv zeta in RO.
+  pose proof (function_ends_in_order _ _ SL) as FE. cbv zeta in FE.
+  rewrite (map_snd_tagged is) in RO, FE. rewrite !insts_of_tagged in RO. rewrite insts_of_tagged in FE.
+  destruct RO as (A & B & C & D & E). destruct FE as (F1 & F2 & F3).
+  split; [exact A|]. split; [exact B|]. split; [exact C|]. split; [exact D|]. split; [exact E|].
+  split; [exact F1|]. split; [exact F2|exact F3].
+Qed.
+
+(** the accepted input, chunk by chunk: after the 20 header bytes the input
+    splits into one chunk per scanned instruction and fewer than four stray
+    bytes; every instruction conforms to the grammar under the tracker of its
+    position, and its re-encoding is as long as its chunk and parses back to it *)
+Theorem e2e_chunks bytes h is :
+  Forall byte bytes -> scan_bytes G bytes = (Some h, is, Ok tt) ->
+  conforms_stream G [] is /\
+  exists hdr cs tl,
+    bytes = hdr ++ concat cs ++ tl /\ length hdr = 20%nat /\ (length tl < 4)%nat /\
+    Forall2 same_length cs is /\ reencodes G [] is cs /\
+    (20 + length (enc_stream is) + length tl = length bytes)%nat.
+Proof.
+  intros HB SB. destruct (scan_bytes_inv _ _ _ _ _ SB) as (d1 & PH & SC).
+  destruct (parse_header_loaded _ _ _ PH HB) as (w1 & w2 & w3 & w4 & R & _ & _ & _ & _ & _ & B1 & _ & L1).
+  cbn [mkdec rest lim dec_lim] in R, L1.
+  destruct (scan_cchain G wf_gdata_linked _ _ _ _ _ _ SC B1 L1) as (cs & d' & CH & _ & _ & K).
+  split; [eapply cchain_conforms; exact CH|].
+  destruct (cchain_facts _ _ _ _ _ _ _ CH) as (R1 & F2 & LN & _).
+  exists (bytes_of_words [MAGIC; w1; w2; w3; w4]), cs, (rest d').
+  split; [rewrite <- R1; exact R|]. split; [rewrite bytes_of_words_length; reflexivity|].
+  split; [apply K; reflexivity|]. split; [exact F2|].
+  split; [eapply cchain_reencodes; [exact wf_gdata_linked|exact CH]|].
+  rewrite R, R1, !app_length, bytes_of_words_length. cbn [length]. lia.
+Qed.
+
+(** (d) an input that is already in layout order is reproduced instruction by
+    instruction: the re-assembled words are the header followed by the
+    encodings of exactly the scanned instructions - each as long as the chunk
+    it was parsed from and parsing back to the same instruction (word-identical
+    up to string padding); the byte lengths agree up to the stray tail *)
+Theorem e2e_layout_ordered bytes h is :
+  Forall byte bytes -> snd (load_case bytes) = Ok tt -> scan_bytes G bytes = (Some h, is, Ok tt) ->
+  layout_ordered (toks is) ->
+  let m := loaded_module bytes in
+  all_insts m = is /\
+  assemble_module (Some h) m = asm_header h ++ flat_map asm_inst is /\
+  conforms_stream G [] is /\
+  exists hdr cs tl,
+    bytes = hdr ++ concat cs ++ tl /\ length hdr = 20%nat /\ (length tl < 4)%nat /\
+    bytes_of_words (assemble_module (Some h) m)
+      = bytes_of_words (asm_header h) ++ concat (map (fun i => bytes_of_words (asm_inst i)) is) /\
+    Forall2 same_length cs is /\ reencodes G [] is cs /\
+    (length (bytes_of_words (assemble_module (Some h) m)) + length tl = length bytes)%nat.
+Proof.
+  intros HB ACC SB LO m. destruct (accepted_view _ _ _ ACC SB) as (s & _ & _ & _ & SL & _ & LM & _).
+  assert (E : all_insts m = is).
+  { unfold m. rewrite LM. rewrite <- (map_snd_tagged is).
+    apply layout_ordered_identity; [exact SL|]. rewrite toks_tagged. exact LO. }
+  destruct (e2e_assemble h m) as [A1 A2]. rewrite E in A1, A2.
+  destruct (e2e_chunks _ _ _ HB SB) as (CS & hdr & cs & tl & R & LH & LT & F2 & RE & LEN).
+  split; [exact E|]. split; [exact A1|]. split; [exact CS|].
+  exists hdr, cs, tl. split; [exact R|]. split; [exact LH|]. split; [exact LT|].
+  split.
+  { rewrite A2, enc_stream_concat. reflexivity. }
+  split; [exact F2|]. split; [exact RE|].
+  rewrite A2, app_length, bytes_of_header_length. lia.
+Qed.
+
+(** (e) reload, tracker-stable case: if the instructions of the loaded module,
+    read in layout order, still conform (i.e. every context-dependent literal
+    has the width the tracker gives it THERE - true whenever the traversal is
+    the input stream itself, and whenever numeric types are declared before
+    their uses), then loading the re-assembled bytes gives the very same
+    result: same module, same header, accepted *)
+Theorem e2e_reload bytes h is :
+  Forall byte bytes -> snd (load_case bytes) = Ok tt -> scan_bytes G bytes = (Some h, is, Ok tt) ->
+  let m := loaded_module bytes in
+  conforms_stream G [] (all_insts m) ->
+  let bytes' := bytes_of_words (assemble_module (Some h) m) in
+  scan_bytes G bytes' = (Some h, all_insts m, Ok tt) /\
+  load_case bytes' = load_case bytes /\
+  snd (load_case bytes') = Ok tt /\ loaded_module bytes' = m /\ loaded_header bytes' = Some h.
+Proof.
+  intros HB ACC SB m HC bytes'.
+  destruct (accepted_view _ _ _ ACC SB) as (s & WO & _ & _ & SL & ST & LM & _).
+  destruct (scan_bytes_inv _ _ _ _ _ SB) as (d1 & PH & _).
+  assert (EB : bytes' = bytes_of_words (asm_header h) ++ enc_stream (all_insts m))
+    by (apply e2e_assemble).
+  assert (SB' : scan_bytes G bytes' = (Some h, all_insts m, Ok tt)).
+  { unfold scan_bytes. rewrite EB at 1.
+    destruct (loaded_header_reparse _ _ _ (enc_stream (all_insts m)) PH HB) as [_ PH']. rewrite PH'.
+    rewrite (scan_of_assembled G [] (all_insts m) wf_gdata_linked HC); [reflexivity|].
+    rewrite EB, app_length, bytes_of_header_length.
+    pose proof (enc_stream_length_ge (all_insts m)). lia. }
+  assert (WO' : wellop (all_insts m)).
+  { intros i Hi. apply WO. rewrite <- (map_snd_tagged is). apply (loaded_subset _ _ SL).
+    unfold m in Hi. rewrite LM in Hi. exact Hi. }
+  assert (L' : real_load (all_insts m) = LCont s).
+  { rewrite (real_load_is_spec _ WO'). rewrite <- tag_tagged. unfold m. rewrite LM.
+    apply (reload_idempotent cls is). rewrite tag_tagged. exact SL. }
+  pose proof (accepted_state _ _ _ _ SB' L') as ST'.
+  split; [exact SB'|]. split; [rewrite ST', ST; reflexivity|].
+  unfold loaded_module, loaded_header. rewrite ST'. cbn [fst snd lw_state with_header set_header l_module l_header].
+  split; [reflexivity|]. split; [symmetry; exact LM|reflexivity].
+Qed.
+
+(** (d) implies the hypothesis of (e) *)
+Corollary layout_ordered_reload bytes h is :
+  Forall byte bytes -> snd (load_case bytes) = Ok tt -> scan_bytes G bytes = (Some h, is, Ok tt) ->
+  layout_ordered (toks is) ->
+  let m := loaded_module bytes in
+  let bytes' := bytes_of_words (assemble_module (Some h) m) in
+  scan_bytes G bytes' = (Some h, is, Ok tt) /\ load_case bytes' = load_case bytes.
+Proof.
+  intros HB ACC SB LO m bytes'.
+  destruct (e2e_layout_ordered _ _ _ HB ACC SB LO) as (E & _ & CS & _). fold m in E.
+  assert (HC : conforms_stream G [] (all_insts m)) by (rewrite E; exact CS).
+  destruct (e2e_reload _ _ _ HB ACC SB HC) as (S1 & S2 & _). fold m in S1, S2. fold bytes' in S1, S2.
+  rewrite E in S1. split; [exact S1|exact S2].
+Qed.
+
+(** ====================================================================== *)
+(** * Non-vacuity, and (f): reload fails without tracker stability           *)
+(** ====================================================================== *)
+
+Lemma Forall_byte_b l : forallb (fun b => b <? 256) l = true -> Forall byte l.
+Proof.
+  rewrite forallb_forall. intros H. apply Forall_forall. intros x Hx.
+  specialize (H x Hx). unfold byte. lia.
+Qed.
+
+(** a module in layout order: header (version 1.0, bound 9), OpCapability
+    Shader, OpExtension "a" whose string word is padded with garbage after the
+    NUL, OpMemoryModel Logical GLSL450.  It is accepted, it is layout-ordered,
+    re-assembling gives bytes of the same length which differ from the input
+    only in the string padding, and loading them gives the same result. *)
+Definition ordered_bytes : list N :=
+  [3;2;35;7; 0;0;1;0; 0;0;0;0; 9;0;0;0; 0;0;0;0] ++ [17;0;2;0; 1;0;0;0] ++ [10;0;2;0; 97;0;255;255] ++ [14;0;3;0; 0;0;0;0; 1;0;0;0].
+
+Example ordered_bytes_reload :
+  Forall byte ordered_bytes /\ snd (load_case ordered_bytes) = Ok tt /\
+  exists h is, scan_bytes G ordered_bytes = (Some h, is, Ok tt) /\ layout_ordered (toks is) /\
+    let bytes' := bytes_of_words (assemble_module (Some h) (loaded_module ordered_bytes)) in
+    load_case bytes' = load_case ordered_bytes /\ length bytes' = length ordered_bytes /\
+    bytes' <> ordered_bytes.
+Proof.
+  assert (HB : Forall byte ordered_bytes) by (apply Forall_byte_b; vm_compute; reflexivity).
+  assert (ACC : snd (load_case ordered_bytes) = Ok tt) by (vm_compute; reflexivity).
+  split; [exact HB|]. split; [exact ACC|].
+  pose (x := scan_bytes G ordered_bytes).
+  assert (SB : scan_bytes G ordered_bytes = x) by reflexivity. vm_compute in x. subst x.
+  match type of SB with _ = (Some ?h, ?is, _) =>
+    assert (LO : layout_ordered (toks is));
+    [assert (E : toks is = [TModule 0; TModule 1; TMemoryModel]) by (vm_compute; reflexivity); rewrite E;
+     split; [cbn; lia|]; split; [reflexivity|]; split; [vm_compute; lia|reflexivity]
+    |exists h, is]
+  end.
+  split; [exact SB|]. split; [exact LO|].
+  split; [|split; [vm_compute; reflexivity|vm_compute; discriminate]].
+  exact (proj2 (layout_ordered_reload ordered_bytes _ _ HB ACC SB LO)).
+Qed.
+
+(** (f) WITHOUT tracker stability the reload fails.  The binary (header:
+    version 1.3, bound 1000):
+        OpFunction %1 %10 None %3 ; OpLabel %11 ; OpUndef %2 %5 ; OpReturn ; OpFunctionEnd
+        OpTypeInt %2 64 0
+        OpFunction %1 %12 None %3 ; OpLabel %13 ; OpSwitch %5 %13 7 %13 ; OpFunctionEnd
+    In the input OpUndef %2 %5 comes BEFORE OpTypeInt %2 64 0, so %5 has no
+    tracked type, and before OpSwitch: the selector %5 is untyped there and the
+    case literal 7 is read (and kept) as ONE word.  The loader files
+    OpTypeInt in the global section; in layout order it precedes the first
+    function, the tracker then gives %5 the 64-bit type, and the parser wants
+    TWO words for the literal of the re-assembled OpSwitch: the instruction's
+    word count is exhausted. *)
+Definition refute_bytes : list N :=
+  [3;2;35;7;
+   0;3;1;0;
+   1;0;8;0;
+   232;3;0;0;
+   0;0;0;0;
+   54;0;5;0;
+   1;0;0;0;
+   10;0;0;0;
+   0;0;0;0;
+   3;0;0;0;
+   248;0;2;0;
+   11;0;0;0;
+   1;0;3;0;
+   2;0;0;0;
+   5;0;0;0;
+   253;0;1;0;
+   56;0;1;0;
+   21;0;4;0;
+   2;0;0;0;
+   64;0;0;0;
+   0;0;0;0;
+   54;0;5;0;
+   1;0;0;0;
+   12;0;0;0;
+   0;0;0;0;
+   3;0;0;0;
+   248;0;2;0;
+   13;0;0;0;
+   251;0;5;0;
+   5;0;0;0;
+   13;0;0;0;
+   7;0;0;0;
+   13;0;0;0;
+   56;0;1;0].
+
+Example reload_refuted :
+  Forall byte refute_bytes /\
+  snd (load_case refute_bytes) = Ok tt /\
+  exists h, loaded_header refute_bytes = Some h /\
+    snd (load_case (bytes_of_words (assemble_module (Some h) (loaded_module refute_bytes))))
+    = Er (POperandError (LimitReached 132)).
+Proof.
+  split; [apply Forall_byte_b; vm_compute; reflexivity|]. split; [vm_compute; reflexivity|].
+  pose (x := loaded_header refute_bytes).
+  assert (LH : loaded_header refute_bytes = x) by reflexivity. vm_compute in x. subst x.
+  match type of LH with _ = Some ?h => exists h end. split; [exact LH|].
+  vm_compute. reflexivity.
+Qed.
+
+(** ... so for this binary the hypothesis of (e) is false: the traversal of the
+    loaded module does not conform under the trackers of its own order *)
+Lemma reload_failure_not_stable bytes h :
+  Forall byte bytes -> snd (load_case bytes) = Ok tt -> loaded_header bytes = Some h ->
+  snd (load_case (bytes_of_words (assemble_module (Some h) (loaded_module bytes)))) <> Ok tt ->
+  ~ conforms_stream G [] (all_insts (loaded_module bytes)).
+Proof.
+  intros HB ACC LH K HC.
+  pose proof ACC as ACC'. apply accepted_iff in ACC' as (h0 & is & SB & _).
+  destruct (accepted_view _ _ _ ACC SB) as (_ & _ & _ & _ & _ & _ & _ & LH0).
+  rewrite LH0 in LH. injection LH as ->.
+  destruct (e2e_reload _ _ _ HB ACC SB HC) as (_ & _ & OK & _).
+  apply K. exact OK.
+Qed.
+
+Corollary reload_refuted_not_stable :
+  ~ conforms_stream G [] (all_insts (loaded_module refute_bytes)).
+Proof.
+  destruct reload_refuted as (HB & ACC & h & LH & K).
+  apply (reload_failure_not_stable refute_bytes h HB ACC LH).
+  intros OK. rewrite OK in K. discriminate K.
+Qed.
+
+Print Assumptions scan_of_assembled.
+Print Assumptions scan_of_assembled_tail.
+Print Assumptions scanned_stream_conforms.
+Print Assumptions re_encoding_has_same_length.
+Print Assumptions header_roundtrip.
+Print Assumptions loaded_header_reparse.
+Print Assumptions loaded_header_reparse_needs_bytes.
+Print Assumptions norm_version_idem.
+Print Assumptions e2e_header.
+Print Assumptions e2e_assemble.
+Print Assumptions e2e_nothing_lost.
+Print Assumptions e2e_order.
+Print Assumptions e2e_chunks.
+Print Assumptions e2e_layout_ordered.
+Print Assumptions e2e_reload.
+Print Assumptions layout_ordered_reload.
+Print Assumptions ordered_bytes_reload.
+Print Assumptions reload_refuted.
+Print Assumptions reload_refuted_not_stable.
